@@ -126,6 +126,53 @@ Section PANOCOCP.
       (overwrites (out_status o) (o_always P) = false -> out_u o = u_in /\ out_y o = y_in /\ out_errz o = errz_in).
   Proof. exact (run_exit X QR DS fwd sim bwd cvals gn_step lb_apply lb_update lb_reset N nu Ulb Uub Dlb Dub stop_req time_up P u_in y_in μ errz_in X0 ds0 ls_fuel). Qed.
 
+
+  (* with well-formed dimensions the per-stage accumulations are the whole-vector ‖p‖² and ∇ψᵀp, and the loop's stopping criterion is
+     C13's ocp_crit on the iterate's own (γ, u, ∇ψ, p) *)
+  Theorem PANOCOCP_stage_sums_are_whole_vector : forall i : iterate (T:=R) X, Consistent i -> length Ulb = nu -> length Uub = nu ->
+    length (iu i) = (N * nu)%nat -> length (igrad i) = (N * nu)%nat ->
+    length (ip i) = (N * nu)%nat /\ length (iuh i) = (N * nu)%nat /\ ipp i = vsqnorm (ip i) /\ igp i = vdot (igrad i) (ip i).
+  Proof. exact (consistent_pp_gp X QR DS fwd sim bwd cvals gn_step lb_apply lb_update lb_reset N nu Ulb Uub Dlb Dub stop_req time_up P u_in y_in μ errz_in X0 ds0 ls_fuel). Qed.
+  Theorem PANOCOCP_criterion_is_C13_criterion : forall i : iterate (T:=R) X, Consistent i -> length Ulb = nu -> length Uub = nu ->
+    length (iu i) = (N * nu)%nat -> length (igrad i) = (N * nu)%nat ->
+    Eps_of i = ocp_crit (p_crit P) Ulb Uub N (igam i) (iu i) (igrad i) (ip i).
+  Proof. exact (eps_is_ocp_crit X QR DS fwd sim bwd cvals gn_step lb_apply lb_update lb_reset N nu Ulb Uub Dlb Dub stop_req time_up P u_in y_in μ errz_in X0 ds0 ls_fuel). Qed.
+
+  (* (d) descent after a safeguarded step (τ = 0: the line search failed or no direction was available), constants of C05 *)
+  Theorem PANOCOCP_descent_safe_step : forall r r' : cbrec (T:=R) X, Desc r r' -> Rec_ok r -> Rec_ok r' ->
+    r_tau r = 0 -> iL (r_it r) < p_Lmax P -> 0 < igam (r_it r) -> 0 < igam (r_it r') ->
+    length Ulb = nu -> length Uub = nu -> length (iu (r_it r)) = (N * nu)%nat -> length (igrad (r_it r)) = (N * nu)%nat ->
+    length (igrad (r_it r')) = (N * nu)%nat -> Forall2 box_ne (tile N Ulb) (tile N Uub) ->
+    let a := r_it r in
+    it_fbe (r_it r') <= it_fbe a - (1 - igam a * iL a) / (2 * igam a) * ipp a + (1 + Rabs (ipsi a)) * p_qub_tol P.
+  Proof. exact (desc_safe X QR DS fwd sim bwd cvals gn_step lb_apply lb_update lb_reset N nu Ulb Uub Dlb Dub stop_req time_up P u_in y_in μ errz_in X0 ds0 ls_fuel). Qed.
+
+  (* what C13 needs: Converged certifies input-constrained stationarity — the returned inputs are the projected-gradient point û of a
+     consistent iterate (ψ, ∇ψ the oracles' at u) whose DOCUMENTED residual of the selected criterion is within the tolerance, and the
+     written multipliers / constraint errors are write_solution's rows on the constraint values simulated at the returned inputs;
+     whatever Gauss-Newton / L-BFGS oracle produced the directions *)
+  Theorem PANOCOCP_converged_certifies : forall fuel o, run fuel = Done o -> out_status o = StConverged ->
+    let cf := out_final o in
+    length Ulb = nu -> length Uub = nu -> length (iu cf) = (N * nu)%nat -> length (igrad cf) = (N * nu)%nat -> igam cf <> 0 ->
+    let st := proj_grad_step (tile N Ulb) (tile N Uub) (igam cf) (iu cf) (igrad cf) in
+    Consistent cf /\
+    out_u o = fst (fst st) /\
+    crit_doc (p_crit P) (tile N Ulb) (tile N Uub) (igam cf) (iu cf) (fst (fst st)) [] (igrad cf) [] <= eff_tol (o_tol P) /\
+    igrad cf = fst (bwd (iu cf) (snd (fwd (iu cf)))) /\
+    (let rows := ocp_write Dlb Dub (cvals (snd (fwd (out_u o)))) y_in μ in out_y o = map fst rows /\ out_errz o = map snd rows).
+  Proof. exact (run_converged_certifies X QR DS fwd sim bwd cvals gn_step lb_apply lb_update lb_reset N nu Ulb Uub Dlb Dub stop_req time_up P u_in y_in μ errz_in X0 ds0 ls_fuel). Qed.
+
+  (* at k = max_iter every pass exits, whatever the stop flag and the clock say *)
+  Theorem PANOCOCP_exits_at_max_iter : forall (s : lstate (T:=R) X QR DS) ε, Eps_of (st_curr s) = Some ε -> st_k s = p_max_iter P ->
+    exists o, pass_ s = PExit o /\ out_iterations o = st_k s /\ out_status o <> StBusy /\ out_eps o = ε /\
+              (out_u o, out_y o, out_errz o) = exit_values X cvals Dlb Dub P u_in y_in μ errz_in (out_status o) (st_curr s).
+  Proof. exact (pass_exits_at_max_iter X QR DS fwd sim bwd cvals gn_step lb_apply lb_update lb_reset N nu Ulb Uub Dlb Dub stop_req time_up P u_in y_in μ errz_in X0 ds0 ls_fuel). Qed.
+
+
+  (* `throw std::logic_error("enable_lbfgs")` (L-BFGS branch entered with gn_interval = 1, i.e. without an L-BFGS object) is unreachable *)
+  Theorem PANOCOCP_no_logic_error : forall fuel, run fuel <> ThrewLogic.
+  Proof. exact (run_no_logic_error X QR DS fwd sim bwd cvals gn_step lb_apply lb_update lb_reset N nu Ulb Uub Dlb Dub stop_req time_up P u_in y_in μ errz_in X0 ds0 ls_fuel). Qed.
+
   (* (g) termination of the line search: with a finite L_max (reached from L after nL doublings), L > 0 and (1/2)^nT below
      min_linesearch_coefficient (> 0), `while (!stop_requested)` makes at most (nL+1)(nT+3) passes; hence no pass of the outer loop of
      any run reports OutOfFuel when ls_fuel is at least that bound *)
@@ -153,6 +200,12 @@ Print Assumptions PANOCOCP_link_means.
 Print Assumptions PANOCOCP_descent_accelerated.
 Print Assumptions PANOCOCP_status_clauses.
 Print Assumptions PANOCOCP_exit.
+Print Assumptions PANOCOCP_stage_sums_are_whole_vector.
+Print Assumptions PANOCOCP_criterion_is_C13_criterion.
+Print Assumptions PANOCOCP_descent_safe_step.
+Print Assumptions PANOCOCP_converged_certifies.
+Print Assumptions PANOCOCP_exits_at_max_iter.
+Print Assumptions PANOCOCP_no_logic_error.
 Print Assumptions PANOCOCP_linesearch_terminates.
 Print Assumptions PANOCOCP_pass_never_out_of_fuel.
 
